@@ -136,7 +136,7 @@ Definition writes (legacy_id : N) (tbl : list desc) (f : field) : list (key * mv
       | DPointer | DPointerAligned | DDp7 =>
           split_parts (parts d) (len pl / nparts d) pl
           ++ [((d_count d, O), MB (le_enc 4 ((len pl mod 4294967296) / d_esize d)))]
-      | DPointerFixed => [((d_member d, O), MP (Some pl))]
+      | DPointerFixed => [((d_member d, O), MP (if len pl =? 0 then None else Some pl))]   (* realloc(ptr, 0) frees and returns NULL (glibc; confirmed on the library) *)
       | DOther | DEnd =>
           if f_type f =? legacy_id
           then [(("max_radius0"%string, O), MB (take 8 pl)); (("max_radius1"%string, O), MB (take 8 (drop 8 pl)))]
